@@ -436,7 +436,7 @@ def run_dataset_list(ctx, method):
         dof, dofs = (np.int64(d) if rng.integers(2) else d), [d] * k
     else:
         dofs = [max(1, v - int(rng.integers(0, 2))) for v in nat]
-        dof = list(dofs)
+        dof = np.array(dofs) if rng.integers(2) else list(dofs)     # one dof per element, as a list or an array
     fn = N.cov_from_measurements if balanced else N.cov_from_unbalanced
     sig = dict(method=method, kind='dataset_list_' + ('balanced' if balanced else 'unbalanced'), dof=dofk,
                one_channel=p == 1)
